@@ -133,7 +133,8 @@ def _calibration(ctx, N, cls):
 
     I = ctx.interp(stubs={"VoronoiFPS._update_post_selection": noop}, assume=protocols.assume_default)
     st = State()
-    o = ctx.construct(I, st, cls, n_to_select=integer("S"))
+    # the raw request is a fraction; the resolved number of selections is what the hook receives
+    o = ctx.construct(I, st, cls, n_to_select=scalar("raw_request", 0, 1, True, False))
     st.heap[o.obj.id]["_axis"] = vconst(0)
     X, y = arr("X", "N", "M"), arr("y", "N", "P")
     lo = len(I.events)
@@ -146,7 +147,13 @@ def _calibration(ctx, N, cls):
     for a in ("dSL_", "vlocation_of_idx", "norms_", "hausdorff_", "hausdorff_at_select_", "selected_idx_", "X_selected_"):
         v = heap.get(a)
         ctx.ob("TAINT-TIME", f"{a} does not depend on timing", v is not None and "time" not in v.labels, f"labels {sorted(v.labels) if v is not None else None}", site, nontrivial=False)
-    ctx.shape_is("R-PADPAIR", "dSL_ allocated with the resolved n_to_select", heap.get("dSL_"), ("S",), site)
+    rawreads = [e for e in I.events[lo:] if e["kind"] == "getattr" and e["attr"] == "n_to_select" and e.get("obj") is o.obj]
+    ctx.ob("R-PADPAIR", "the initialisation sizes its buffers from the resolved request, not from the raw hyper-parameter", not rawreads, f"raw n_to_select read: `{rawreads[0].get('src')}`" if rawreads else "resolved argument only", site)
+    dsl = heap.get("dSL_")
+    if dsl is not None and dsl.kind != "undef" and dsl.shape is not None and all(d.known() for d in dsl.shape):
+        ctx.shape_is("R-PADPAIR", "dSL_ allocated with the resolved n_to_select", dsl, ("S",), site)
+    else:
+        ctx.ob("R-PADPAIR", "dSL_ allocated with the resolved n_to_select", False, f"dSL_ = {dsl!r}", site)
     ctx.shape_is("Shape", "vlocation_of_idx has one entry per sample", heap.get("vlocation_of_idx"), ("N",), site)
     I2, s2 = ctx.interp(), State()
     ref = ctx.call_func(I2, s2, "ref.selection_ref.fps_norms", X, 0)
